@@ -160,8 +160,8 @@ def run_property(modname: str, tier: str) -> int:
         for r in results:
             if r.get("error") or r.get("hard_timeout"):
                 continue
-            if r.get("stopped_by") == "tier-wall-cap" and r.get("paths", 0) < 5:
-                continue  # the shard hardly ran because the wall-clock cap of the tier was reached (reported as not exhausted)
+            if r.get("stopped_by") == "tier-wall-cap":
+                continue  # cut short by the wall-clock cap of the tier (reported as not exhausted): says nothing about vacuity
             if r.get("ok", 0) + sum((r.get("violation_keys") or {}).values()) == 0:
                 twin_ok = False
                 harness_errors.append(f"shard {r['shard']}: vacuous (no path reached the assertion)")
